@@ -486,6 +486,8 @@ class Interp:
             except Exception as e:  # noqa: BLE001
                 self.E("fold-exc", n, ast.unparse(n), type(e).__name__, guards=g)
         deps = frozenset().union(*[v.deps for v in vals])
+        if deps and (len(n.ops) > 1 or any(isinstance(o, (ast.In, ast.NotIn)) for o in n.ops)):
+            self.E("chained-compare", n, ast.unparse(n)[:70], guards=g)
         if self.mode == "atoms":
             key = ast.unparse(n)
             if key not in self.atoms_found:
@@ -498,6 +500,7 @@ class Interp:
         is_and = isinstance(n.op, ast.And)
         res = None
         deps = frozenset()
+        valuepos = []  # operands whose *value* can become the result with a value other than 0/False
         for i, e in enumerate(n.values):
             v = self.ev(e, env, g)
             deps |= v.deps
@@ -507,15 +510,26 @@ class Interp:
                 if (is_and and not t) or (not is_and and t):
                     # short-circuit value
                     res = join(res, v) if res is not None else v
+                    if not is_and:
+                        valuepos.append(v)
                     break
                 if last:
                     res = join(res, v) if res is not None else v
+                    valuepos.append(v)
                 continue  # neutral element, skipped
             res = join(res, v) if res is not None else v
+            # `a and b`: a falsy a is returned as is, but is 0/False/empty then; `a or b`: a truthy a is returned
+            if last or not is_and:
+                valuepos.append(v)
         if res is None:
             res = Conc(is_and)
         if not isinstance(res, Conc):
-            ks = kinds(res)
+            ks = set()
+            for v in valuepos:
+                if not isinstance(v, Conc):
+                    ks |= set(kinds(v))
+                elif kind_of(v.v) != "bool" and v.v not in (0, 1):
+                    ks.add(kind_of(v.v))
             if any(k != "bool" for k in ks):
                 self.E("boolop-nonbool", n, ast.unparse(n), sorted(ks), guards=g)
             if isinstance(res, Abs):
@@ -807,7 +821,7 @@ class Interp:
                     src = a0.elems
                 else:
                     src = [Abs({"obj"}, a0.deps)]
-                self.E("reduce1", n, ast.unparse(n)[:90], bool(a0.deps), guards=g)
+                self.E("reduce1", n, ast.unparse(n)[:90], bool(a0.deps) and isinstance(n.args[0], (ast.List, ast.Tuple, ast.Set, ast.Name)), guards=g)
             if all(alts(s) is not None for s in src):
                 # every operand drawn from finite alternatives: enumerate
                 import itertools
@@ -834,7 +848,7 @@ class Interp:
         if fname == "sum" and not shadow:
             a = args[0] if args else Abs({"obj"})
             src = [Conc(x) for x in a.v] if isinstance(a, Conc) else a.elems if isinstance(a, AList) else [Abs({"obj"}, a.deps)]
-            self.E("reduce1", n, ast.unparse(n)[:90], bool(a.deps), guards=g)
+            self.E("reduce1", n, ast.unparse(n)[:90], bool(a.deps) and isinstance(n.args[0], (ast.List, ast.Tuple, ast.Set, ast.Name)), guards=g)
             ks = set()
             for s in src:
                 ks |= set(kinds(s))
@@ -843,11 +857,13 @@ class Interp:
             return Abs({"float"} if "float" in ks and ks <= {"float"} else ({"int"} if "float" not in ks else {"float"}), deps) if src else Conc(0)
         if fname in ("any", "all") and not shadow:
             a = args[0] if args else Abs({"obj"})
-            self.E("reduce1", n, ast.unparse(n)[:90], bool(a.deps), guards=g)
+            self.E("reduce1", n, ast.unparse(n)[:90], bool(a.deps) and isinstance(n.args[0], (ast.List, ast.Tuple, ast.Set, ast.Name)), guards=g)
             return Abs({"bool"}, deps)
         if shadow:
             self.E("unknown-call", n, fname + " (local)", guards=g)
             return Abs({"obj"}, deps)
+        if fname in ("float", "int", "bool", "round", "range", "len", "str") and deps:
+            self.E("scalar-cast", n, ast.unparse(n)[:70], guards=g)
         if fname == "range":
             return AList([Abs({"int"}, deps)])
         if fname in ("list", "tuple", "sorted", "set") and args and isinstance(args[0], AList):
